@@ -45,6 +45,10 @@ var FedCorpus = []corpusCase{
 	{"D43-excluded-fragment-internal", fixedIn(`{ ... @include(if: false) { __typename } me { firstName } }`), ""},
 	{"D44-two-joins-under-list", fixedIn(`{ allUsers { lastName nick } }`), ""},
 	{"D46-nested-fragments-same-root", fixedIn(`{ ... on Query { ... on Query { allUsers { x1: firstName } } } allUsers { nick } }`), ""},
+	{"D47-directive-on-outer-spread-of-nested-fragments", withPrio(fixedIn(`{ ...F0 } fragment F0 on Query { ...F1 @skip(if: true) } fragment F1 on Query { ...F2 } fragment F2 on Query { ...F3 } fragment F3 on Query { __typename }`), "B"), ""},
+	{"D48-join-under-narrowing-fragment-list", fixedIn(`{ pets { ... on Cat { ... on Cat { toys } } } }`), "elements the fragment does not apply to carry no id"},
+	{"D48-join-under-narrowing-fragment-object", fixedIn(`{ user(id: "u2") { pet { ... on Cat { ... on Cat { toys } } } } }`), ""},
+	{"D48-join-under-skipped-fragment", fixedIn(`{ me { friends { ... on User @skip(if: true) { ...F6 } } } } fragment F6 on User { nick }`), ""},
 	{"D26-inline-priority", withPrio(fixedIn(`{ me { ... on User { lastName } } }`), "C"), "planner ping-pong"},
 	{"basic-nested", fixedIn(`{ allUsers { firstName photos { url likes owner { firstName } } } }`), ""},
 	{"basic-node", fixedIn(`{ node(id: "u1") { ... on User { firstName lastName } } }`), ""},
@@ -138,11 +142,17 @@ func (c01) Run(c *Ctx, i int) CaseResult {
 		return res
 	}
 	if ok, what := fc.Status(); !ok {
-		cl := InKnownRegion(fc.Classes)
-		if cl == "" {
-			cl = fc.Classifier()
+		fin, ffc := in, fc
+		if i >= len(FedCorpus) {
+			fin, ffc = ShrinkFed(c, in, fc)
+			_, what = ffc.Status()
 		}
-		res.Fails = append(res.Fails, Failure{Channel: "L0.mono", Classifier: cl, What: what, Input: in, Expected: fc.Want, Observed: map[string]interface{}{"data": fc.Out.Data, "error": ErrString(fc.Out.Err), "plan": PlanText(fc.Out.Plans)}})
+		cl := InKnownRegion(ffc.Classes)
+		if cl == "" {
+			cl = ffc.Classifier()
+		}
+		res.Fails = append(res.Fails, Failure{Channel: "L0.mono", Classifier: cl, What: what, Input: fin, Expected: ffc.Want,
+			Observed: map[string]interface{}{"data": ffc.Out.Data, "error": ErrString(ffc.Out.Err), "plan": PlanText(ffc.Out.Plans), "original_query": in.Query}})
 	}
 	if i%97 == 0 || i < 2 {
 		res.Sample = map[string]interface{}{"query": in.Query, "services": in.Spec.Order, "priorities": in.Spec.Priorities, "vars": in.Vars, "calls": fc.Fed.TotalCalls()}
